@@ -21,6 +21,9 @@ type writerSpec struct {
 }
 
 var writerSpecs = []writerSpec{
+	{field: "parser/rdparser.Parser.maxDepth", floor: 0, permitted: map[string]string{
+		"parser/rdparser.NewFromSource": "the one constructor every reader mode goes through: strict, fault-tolerant, interactive and format-preserving parsers all get DefaultMaxParseDepth, so they accept and refuse the same nesting",
+	}},
 	{field: "internal/fmtmeta.Meta.TrailingComment", floor: 2, permitted: map[string]string{
 		"parser/rdparser.(*Parser).Parse":                 "a top-level expression's inline comment (written by writeTopLevel)",
 		"parser/rdparser.(*Parser).attachTrailingComment": "always on parent.Cells[last], a direct child of a list: never on the operand hidden inside a quote node",
